@@ -13,6 +13,7 @@ thread_local! {
     static FUEL: Cell<Option<u64>> = const { Cell::new(None) };
     static TICKS: Cell<u64> = const { Cell::new(0) };
     static EXECS: Cell<u64> = const { Cell::new(0) };
+    static INNER: Cell<u64> = const { Cell::new(0) };
 }
 
 /// Payload raised instead of `std::process::exit(code)` when armed.
@@ -41,6 +42,7 @@ pub fn set_fuel(fuel: Option<u64>) {
     FUEL.with(|cell| cell.set(fuel));
     TICKS.with(|cell| cell.set(0));
     EXECS.with(|cell| cell.set(0));
+    INNER.with(|cell| cell.set(0));
 }
 
 /// Called at the top of every iteration of the run loop.
@@ -55,6 +57,26 @@ pub fn tick() {
             std::panic::resume_unwind(Box::new(VerifOutOfFuel));
         }
     }
+}
+
+/// Called at the top of every iteration of the debugger's own loop (inside `next_action`).
+/// Shares the fuel with the run loop, so that a spin inside the debugger is also cut off.
+pub fn inner_tick() {
+    let inner = INNER.with(|cell| {
+        cell.set(cell.get() + 1);
+        cell.get()
+    });
+    if let Some(fuel) = FUEL.with(|cell| cell.get()) {
+        if inner + TICKS.with(|cell| cell.get()) > fuel {
+            let _ = std::io::stdout().flush();
+            std::panic::resume_unwind(Box::new(VerifOutOfFuel));
+        }
+    }
+}
+
+/// Iterations of the debugger's own loop since the last `set_fuel`.
+pub fn inner_ticks() -> u64 {
+    INNER.with(|cell| cell.get())
 }
 
 /// Called for every executed instruction.
